@@ -1,181 +1,289 @@
 /-
-C04 proofs — structural invariants (walked): preservation by `exec` and `begin`.
+C04 proofs — structural invariants (spec, fbDone): preservation by `exec` and `begin`.
 -/
-import TbbVerif.Proofs.C04.ReachLemmas2
+import TbbVerif.Proofs.C04.ReachE
 
 namespace TbbVerif.C04
-variable {cfg : Cfg} {reg : List Nat} {s : St} {t : Nat}
+variable {cfg : Cfg} {r : List RF} {reg : List Nat} {s : St} {t : Nat}
 
 set_option maxHeartbeats 1600000 in
-theorem walked_exec_c (hS : Struct reg s) (hO : Orig s) (hR : Reach reg s) :
-    ∀ t' a i pend L z, ((execCancel C reg s t).pc t').pending = some (a, i, pend) → reg[i]? = some L → z ∈ (execCancel C reg s t).items L → z ∈ pend ∨ (Anc (execCancel C reg s t).par z a → (execCancel C reg s t).can z = true) := by
-  have g0 := hR.walked
-  have g0t := hR.walked t
-  have g1 := hR.painting
-  have g1t := hR.painting t
-  have g2 := hR.noResetPc
-  have g2t := hR.noResetPc t
-  have g3 := hR.copyTrue
-  have g3t := hR.copyTrue t
-  have g4 := hS.lmxWalk
-  have g4t := hS.lmxWalk t
-  have g5 := hS.lmxBind
-  have g5t := hS.lmxBind t
-  have g6 := hS.createdPar
-  have g7 := hS.parDone
-  have g8 := hS.itemsOk
-  have g8t := hS.itemsOk t
+theorem spec_exec_c (hS : Struct reg s) (hO : Orig s) (hH : Hint s) (hR : Reach reg s) :
+    ∀ t' x n a m, ((execCancel (C r) reg s t).pc t').afterSpec = some (x, n) → Passed (execCancel (C r) reg s t).skipSt (execCancel (C r) reg s t).srcOf (execCancel (C r) reg s t).pst n a m → Cur (execCancel (C r) reg s t).wst (execCancel (C r) reg s t).rst a m → Anc (execCancel (C r) reg s t).par x a → Vf (execCancel (C r) reg s t).par (execCancel (C r) reg s t).can (execCancel (C r) reg s t).rst (execCancel (C r) reg s t).oc m a x := by
+  have g0 := hR.spec
+  have g0t := hR.spec t
+  have g1 := hR.copyTrue
+  have g1t := hR.copyTrue t
+  have g2 := hR.snapLe
+  have g2t := hR.snapLe t
+  have g3 := hR.wstLe
+  have l0 := @snap_le_of_afterSpec reg s hR
+  have l1 := @spec_establish reg s hS hR
+  have l2 := @no_anc_afterSpec reg s hS hH
+  have l3 := @locked_afterSpec reg s hS
+  have l4 := @anc_cas_back reg s hS
+  have l5 := @passed_le_s reg s hR
+  have l6 := @cur_le_s reg s hR
+  have l7 := @vf_cas reg s hS
   unfold execCancel
   try unfold walkNext
   try unfold afterHint
+  try unfold applyReset
   try simp only [C_propHolds, C_copyNeverClears, afterLists, ↓reduceIte, Bool.true_and]
   repeat' split
   all_goals (try rw [‹s.pc t = _›] at g0t)
-  all_goals (try simp [Pc.pending, Pc.pending_walk, Pc.walkIdx, Pc.copyVal, chain_none_not_anc, chain_some_head, anc_irrefl_s, anc_cas_back, ne_of_registered_created, List.mem_cons, List.mem_of_mem_erase] at g0t)
+  all_goals (try simp [Pc.afterSpec, Pc.copyVal, Pc.snapVal] at g0t)
   all_goals (try rw [‹s.pc t = _›] at g1t)
-  all_goals (try simp [Pc.pending, Pc.pending_walk, Pc.walkIdx, Pc.copyVal, chain_none_not_anc, chain_some_head, anc_irrefl_s, anc_cas_back, ne_of_registered_created, List.mem_cons, List.mem_of_mem_erase] at g1t)
+  all_goals (try simp [Pc.afterSpec, Pc.copyVal, Pc.snapVal] at g1t)
   all_goals (try rw [‹s.pc t = _›] at g2t)
-  all_goals (try simp [Pc.pending, Pc.pending_walk, Pc.walkIdx, Pc.copyVal, chain_none_not_anc, chain_some_head, anc_irrefl_s, anc_cas_back, ne_of_registered_created, List.mem_cons, List.mem_of_mem_erase] at g2t)
-  all_goals (try rw [‹s.pc t = _›] at g3t)
-  all_goals (try simp [Pc.pending, Pc.pending_walk, Pc.walkIdx, Pc.copyVal, chain_none_not_anc, chain_some_head, anc_irrefl_s, anc_cas_back, ne_of_registered_created, List.mem_cons, List.mem_of_mem_erase] at g3t)
-  all_goals (try rw [‹s.pc t = _›] at g4t)
-  all_goals (try simp [Pc.pending, Pc.pending_walk, Pc.walkIdx, Pc.copyVal, chain_none_not_anc, chain_some_head, anc_irrefl_s, anc_cas_back, ne_of_registered_created, List.mem_cons, List.mem_of_mem_erase] at g4t)
-  all_goals (try rw [‹s.pc t = _›] at g5t)
-  all_goals (try simp [Pc.pending, Pc.pending_walk, Pc.walkIdx, Pc.copyVal, chain_none_not_anc, chain_some_head, anc_irrefl_s, anc_cas_back, ne_of_registered_created, List.mem_cons, List.mem_of_mem_erase] at g5t)
-  all_goals (try rw [‹s.pc t = _›] at g8t)
-  all_goals (try simp [Pc.pending, Pc.pending_walk, Pc.walkIdx, Pc.copyVal, chain_none_not_anc, chain_some_head, anc_irrefl_s, anc_cas_back, ne_of_registered_created, List.mem_cons, List.mem_of_mem_erase] at g8t)
-  all_goals (have gw := fun t' a i pend (h : (s.pc t').pending = some (a, i, pend)) => (Pc.pending_walk h).1)
-  all_goals (intro t' a i pend L z h1 h2 h3; by_cases ht : t' = t <;> first | (subst ht; try simp [C, upd_apply, afterLists, nextList, Pc.pending, Pc.pending_walk, Pc.walkIdx, Pc.copyVal, chain_none_not_anc, chain_some_head, anc_irrefl_s, anc_cas_back, ne_of_registered_created, List.mem_cons, List.mem_of_mem_erase] at h1 h2 h3 ⊢) | (try simp [ht, C, upd_apply, afterLists, nextList] at h1 h2 h3 ⊢))
-  all_goals grind [Pc.pending, Pc.pending_walk, Pc.walkIdx, Pc.copyVal, chain_none_not_anc, chain_some_head, anc_irrefl_s, anc_cas_back, ne_of_registered_created, List.mem_cons, List.mem_of_mem_erase]
+  all_goals (try simp [Pc.afterSpec, Pc.copyVal, Pc.snapVal] at g2t)
+  all_goals (intro t' x n a m h1 h2 h3 h4; by_cases ht : t' = t <;> first | (subst ht; try simp [C, St.eff, upd_apply, afterLists, nextList, Pc.afterSpec, Pc.copyVal, Pc.snapVal] at h1 h2 h3 h4 ⊢) | (try simp [ht, C, St.eff, upd_apply, afterLists, nextList] at h1 h2 h3 h4 ⊢))
+  all_goals grind [Pc.afterSpec, Pc.copyVal, Pc.snapVal , → Pc.afterSpec_owner, → passed_below_bump, → passed_upd_skip_back, → ne_of_locked_created, → cur_upd_wst, → cur_upd_rst, vf_upd_true, vf_upd_true_self, vf_reset, vf_exit]
 
 set_option maxHeartbeats 1600000 in
-theorem walked_exec_b (hS : Struct reg s) (hO : Orig s) (hR : Reach reg s) :
-    ∀ t' a i pend L z, ((execBind C s t).pc t').pending = some (a, i, pend) → reg[i]? = some L → z ∈ (execBind C s t).items L → z ∈ pend ∨ (Anc (execBind C s t).par z a → (execBind C s t).can z = true) := by
-  have g0 := hR.walked
-  have g0t := hR.walked t
-  have g1 := hR.painting
-  have g1t := hR.painting t
-  have g2 := hR.noResetPc
-  have g2t := hR.noResetPc t
-  have g3 := hR.copyTrue
-  have g3t := hR.copyTrue t
-  have g4 := hS.lmxWalk
-  have g4t := hS.lmxWalk t
-  have g5 := hS.lmxBind
-  have g5t := hS.lmxBind t
-  have g6 := hS.createdPar
-  have g7 := hS.parDone
-  have g8 := hS.itemsOk
-  have g8t := hS.itemsOk t
+theorem spec_exec_b (hS : Struct reg s) (hO : Orig s) (hH : Hint s) (hR : Reach reg s) :
+    ∀ t' x n a m, ((execBind (C r) s t).pc t').afterSpec = some (x, n) → Passed (execBind (C r) s t).skipSt (execBind (C r) s t).srcOf (execBind (C r) s t).pst n a m → Cur (execBind (C r) s t).wst (execBind (C r) s t).rst a m → Anc (execBind (C r) s t).par x a → Vf (execBind (C r) s t).par (execBind (C r) s t).can (execBind (C r) s t).rst (execBind (C r) s t).oc m a x := by
+  have g0 := hR.spec
+  have g0t := hR.spec t
+  have g1 := hR.copyTrue
+  have g1t := hR.copyTrue t
+  have g2 := hR.snapLe
+  have g2t := hR.snapLe t
+  have g3 := hR.wstLe
+  have l0 := @snap_le_of_afterSpec reg s hR
+  have l1 := @spec_establish reg s hS hR
+  have l2 := @no_anc_afterSpec reg s hS hH
+  have l3 := @locked_afterSpec reg s hS
+  have l4 := @anc_cas_back reg s hS
+  have l5 := @passed_le_s reg s hR
+  have l6 := @cur_le_s reg s hR
+  have l7 := @vf_cas reg s hS
   unfold execBind
   try unfold walkNext
   try unfold afterHint
+  try unfold applyReset
   try simp only [C_propHolds, C_copyNeverClears, afterLists, ↓reduceIte, Bool.true_and]
   repeat' split
   all_goals (try rw [‹s.pc t = _›] at g0t)
-  all_goals (try simp [Pc.pending, Pc.pending_walk, Pc.walkIdx, Pc.copyVal, chain_none_not_anc, chain_some_head, anc_irrefl_s, anc_cas_back, ne_of_registered_created, List.mem_cons, List.mem_of_mem_erase] at g0t)
+  all_goals (try simp [Pc.afterSpec, Pc.copyVal, Pc.snapVal] at g0t)
   all_goals (try rw [‹s.pc t = _›] at g1t)
-  all_goals (try simp [Pc.pending, Pc.pending_walk, Pc.walkIdx, Pc.copyVal, chain_none_not_anc, chain_some_head, anc_irrefl_s, anc_cas_back, ne_of_registered_created, List.mem_cons, List.mem_of_mem_erase] at g1t)
+  all_goals (try simp [Pc.afterSpec, Pc.copyVal, Pc.snapVal] at g1t)
   all_goals (try rw [‹s.pc t = _›] at g2t)
-  all_goals (try simp [Pc.pending, Pc.pending_walk, Pc.walkIdx, Pc.copyVal, chain_none_not_anc, chain_some_head, anc_irrefl_s, anc_cas_back, ne_of_registered_created, List.mem_cons, List.mem_of_mem_erase] at g2t)
-  all_goals (try rw [‹s.pc t = _›] at g3t)
-  all_goals (try simp [Pc.pending, Pc.pending_walk, Pc.walkIdx, Pc.copyVal, chain_none_not_anc, chain_some_head, anc_irrefl_s, anc_cas_back, ne_of_registered_created, List.mem_cons, List.mem_of_mem_erase] at g3t)
-  all_goals (try rw [‹s.pc t = _›] at g4t)
-  all_goals (try simp [Pc.pending, Pc.pending_walk, Pc.walkIdx, Pc.copyVal, chain_none_not_anc, chain_some_head, anc_irrefl_s, anc_cas_back, ne_of_registered_created, List.mem_cons, List.mem_of_mem_erase] at g4t)
-  all_goals (try rw [‹s.pc t = _›] at g5t)
-  all_goals (try simp [Pc.pending, Pc.pending_walk, Pc.walkIdx, Pc.copyVal, chain_none_not_anc, chain_some_head, anc_irrefl_s, anc_cas_back, ne_of_registered_created, List.mem_cons, List.mem_of_mem_erase] at g5t)
-  all_goals (try rw [‹s.pc t = _›] at g8t)
-  all_goals (try simp [Pc.pending, Pc.pending_walk, Pc.walkIdx, Pc.copyVal, chain_none_not_anc, chain_some_head, anc_irrefl_s, anc_cas_back, ne_of_registered_created, List.mem_cons, List.mem_of_mem_erase] at g8t)
-  all_goals (have gw := fun t' a i pend (h : (s.pc t').pending = some (a, i, pend)) => (Pc.pending_walk h).1)
-  all_goals (intro t' a i pend L z h1 h2 h3; by_cases ht : t' = t <;> first | (subst ht; try simp [C, upd_apply, afterLists, nextList, Pc.pending, Pc.pending_walk, Pc.walkIdx, Pc.copyVal, chain_none_not_anc, chain_some_head, anc_irrefl_s, anc_cas_back, ne_of_registered_created, List.mem_cons, List.mem_of_mem_erase] at h1 h2 h3 ⊢) | (try simp [ht, C, upd_apply, afterLists, nextList] at h1 h2 h3 ⊢))
-  all_goals grind [Pc.pending, Pc.pending_walk, Pc.walkIdx, Pc.copyVal, chain_none_not_anc, chain_some_head, anc_irrefl_s, anc_cas_back, ne_of_registered_created, List.mem_cons, List.mem_of_mem_erase]
+  all_goals (try simp [Pc.afterSpec, Pc.copyVal, Pc.snapVal] at g2t)
+  all_goals (intro t' x n a m h1 h2 h3 h4; by_cases ht : t' = t <;> first | (subst ht; try simp [C, St.eff, upd_apply, afterLists, nextList, Pc.afterSpec, Pc.copyVal, Pc.snapVal] at h1 h2 h3 h4 ⊢) | (try simp [ht, C, St.eff, upd_apply, afterLists, nextList] at h1 h2 h3 h4 ⊢))
+  all_goals grind [Pc.afterSpec, Pc.copyVal, Pc.snapVal , → Pc.afterSpec_owner, → passed_below_bump, → passed_upd_skip_back, → ne_of_locked_created, → cur_upd_wst, → cur_upd_rst, vf_upd_true, vf_upd_true_self, vf_reset, vf_exit]
 
 set_option maxHeartbeats 1600000 in
-theorem walked_exec_o (hS : Struct reg s) (hO : Orig s) (hR : Reach reg s) :
-    ∀ t' a i pend L z, ((execOther s t).pc t').pending = some (a, i, pend) → reg[i]? = some L → z ∈ (execOther s t).items L → z ∈ pend ∨ (Anc (execOther s t).par z a → (execOther s t).can z = true) := by
-  have g0 := hR.walked
-  have g0t := hR.walked t
-  have g1 := hR.painting
-  have g1t := hR.painting t
-  have g2 := hR.noResetPc
-  have g2t := hR.noResetPc t
-  have g3 := hR.copyTrue
-  have g3t := hR.copyTrue t
-  have g4 := hS.lmxWalk
-  have g4t := hS.lmxWalk t
-  have g5 := hS.lmxBind
-  have g5t := hS.lmxBind t
-  have g6 := hS.createdPar
-  have g7 := hS.parDone
-  have g8 := hS.itemsOk
-  have g8t := hS.itemsOk t
+theorem spec_exec_o (hS : Struct reg s) (hO : Orig s) (hH : Hint s) (hR : Reach reg s) :
+    ∀ t' x n a m, ((execOther s t).pc t').afterSpec = some (x, n) → Passed (execOther s t).skipSt (execOther s t).srcOf (execOther s t).pst n a m → Cur (execOther s t).wst (execOther s t).rst a m → Anc (execOther s t).par x a → Vf (execOther s t).par (execOther s t).can (execOther s t).rst (execOther s t).oc m a x := by
+  have g0 := hR.spec
+  have g0t := hR.spec t
+  have g1 := hR.copyTrue
+  have g1t := hR.copyTrue t
+  have g2 := hR.snapLe
+  have g2t := hR.snapLe t
+  have g3 := hR.wstLe
+  have l0 := @snap_le_of_afterSpec reg s hR
+  have l1 := @spec_establish reg s hS hR
+  have l2 := @no_anc_afterSpec reg s hS hH
+  have l3 := @locked_afterSpec reg s hS
+  have l4 := @anc_cas_back reg s hS
+  have l5 := @passed_le_s reg s hR
+  have l6 := @cur_le_s reg s hR
+  have l7 := @vf_cas reg s hS
   unfold execOther
   try unfold walkNext
   try unfold afterHint
+  try unfold applyReset
   try simp only [C_propHolds, C_copyNeverClears, afterLists, ↓reduceIte, Bool.true_and]
   repeat' split
   all_goals (try rw [‹s.pc t = _›] at g0t)
-  all_goals (try simp [Pc.pending, Pc.pending_walk, Pc.walkIdx, Pc.copyVal, chain_none_not_anc, chain_some_head, anc_irrefl_s, anc_cas_back, ne_of_registered_created, List.mem_cons, List.mem_of_mem_erase] at g0t)
+  all_goals (try simp [Pc.afterSpec, Pc.copyVal, Pc.snapVal] at g0t)
   all_goals (try rw [‹s.pc t = _›] at g1t)
-  all_goals (try simp [Pc.pending, Pc.pending_walk, Pc.walkIdx, Pc.copyVal, chain_none_not_anc, chain_some_head, anc_irrefl_s, anc_cas_back, ne_of_registered_created, List.mem_cons, List.mem_of_mem_erase] at g1t)
+  all_goals (try simp [Pc.afterSpec, Pc.copyVal, Pc.snapVal] at g1t)
   all_goals (try rw [‹s.pc t = _›] at g2t)
-  all_goals (try simp [Pc.pending, Pc.pending_walk, Pc.walkIdx, Pc.copyVal, chain_none_not_anc, chain_some_head, anc_irrefl_s, anc_cas_back, ne_of_registered_created, List.mem_cons, List.mem_of_mem_erase] at g2t)
-  all_goals (try rw [‹s.pc t = _›] at g3t)
-  all_goals (try simp [Pc.pending, Pc.pending_walk, Pc.walkIdx, Pc.copyVal, chain_none_not_anc, chain_some_head, anc_irrefl_s, anc_cas_back, ne_of_registered_created, List.mem_cons, List.mem_of_mem_erase] at g3t)
-  all_goals (try rw [‹s.pc t = _›] at g4t)
-  all_goals (try simp [Pc.pending, Pc.pending_walk, Pc.walkIdx, Pc.copyVal, chain_none_not_anc, chain_some_head, anc_irrefl_s, anc_cas_back, ne_of_registered_created, List.mem_cons, List.mem_of_mem_erase] at g4t)
-  all_goals (try rw [‹s.pc t = _›] at g5t)
-  all_goals (try simp [Pc.pending, Pc.pending_walk, Pc.walkIdx, Pc.copyVal, chain_none_not_anc, chain_some_head, anc_irrefl_s, anc_cas_back, ne_of_registered_created, List.mem_cons, List.mem_of_mem_erase] at g5t)
-  all_goals (try rw [‹s.pc t = _›] at g8t)
-  all_goals (try simp [Pc.pending, Pc.pending_walk, Pc.walkIdx, Pc.copyVal, chain_none_not_anc, chain_some_head, anc_irrefl_s, anc_cas_back, ne_of_registered_created, List.mem_cons, List.mem_of_mem_erase] at g8t)
-  all_goals (have gw := fun t' a i pend (h : (s.pc t').pending = some (a, i, pend)) => (Pc.pending_walk h).1)
-  all_goals (intro t' a i pend L z h1 h2 h3; by_cases ht : t' = t <;> first | (subst ht; try simp [C, upd_apply, afterLists, nextList, Pc.pending, Pc.pending_walk, Pc.walkIdx, Pc.copyVal, chain_none_not_anc, chain_some_head, anc_irrefl_s, anc_cas_back, ne_of_registered_created, List.mem_cons, List.mem_of_mem_erase] at h1 h2 h3 ⊢) | (try simp [ht, C, upd_apply, afterLists, nextList] at h1 h2 h3 ⊢))
-  all_goals grind [Pc.pending, Pc.pending_walk, Pc.walkIdx, Pc.copyVal, chain_none_not_anc, chain_some_head, anc_irrefl_s, anc_cas_back, ne_of_registered_created, List.mem_cons, List.mem_of_mem_erase]
+  all_goals (try simp [Pc.afterSpec, Pc.copyVal, Pc.snapVal] at g2t)
+  all_goals (intro t' x n a m h1 h2 h3 h4; by_cases ht : t' = t <;> first | (subst ht; try simp [C, St.eff, upd_apply, afterLists, nextList, Pc.afterSpec, Pc.copyVal, Pc.snapVal] at h1 h2 h3 h4 ⊢) | (try simp [ht, C, St.eff, upd_apply, afterLists, nextList] at h1 h2 h3 h4 ⊢))
+  all_goals grind [Pc.afterSpec, Pc.copyVal, Pc.snapVal , → Pc.afterSpec_owner, → passed_below_bump, → passed_upd_skip_back, → ne_of_locked_created, → cur_upd_wst, → cur_upd_rst, vf_upd_true, vf_upd_true_self, vf_reset, vf_exit]
 
-theorem walked_exec (hS : Struct reg s) (hO : Orig s) (hR : Reach reg s) :
-    ∀ t' a i pend L z, ((exec C reg s t).pc t').pending = some (a, i, pend) → reg[i]? = some L → z ∈ (exec C reg s t).items L → z ∈ pend ∨ (Anc (exec C reg s t).par z a → (exec C reg s t).can z = true) := by
+theorem spec_exec (hS : Struct reg s) (hO : Orig s) (hH : Hint s) (hR : Reach reg s) :
+    ∀ t' x n a m, ((exec (C r) reg s t).pc t').afterSpec = some (x, n) → Passed (exec (C r) reg s t).skipSt (exec (C r) reg s t).srcOf (exec (C r) reg s t).pst n a m → Cur (exec (C r) reg s t).wst (exec (C r) reg s t).rst a m → Anc (exec (C r) reg s t).par x a → Vf (exec (C r) reg s t).par (exec (C r) reg s t).can (exec (C r) reg s t).rst (exec (C r) reg s t).oc m a x := by
   unfold exec
   split
-  · exact walked_exec_c hS hO hR
+  · exact spec_exec_c hS hO hH hR
   · split
-    · exact walked_exec_b hS hO hR
-    · exact walked_exec_o hS hO hR
+    · exact spec_exec_b hS hO hH hR
+    · exact spec_exec_o hS hO hH hR
 
 set_option maxHeartbeats 1600000 in
-theorem walked_begin (hS : Struct reg s) (hO : Orig s) (hR : Reach reg s) (hi : s.pc t = .idle) :
-    ∀ t' a i pend L z, ((begin reg s t).pc t').pending = some (a, i, pend) → reg[i]? = some L → z ∈ (begin reg s t).items L → z ∈ pend ∨ (Anc (begin reg s t).par z a → (begin reg s t).can z = true) := by
-  have g0 := hR.walked
-  have g0t := hR.walked t
-  have g1 := hR.painting
-  have g1t := hR.painting t
-  have g2 := hR.noResetPc
-  have g2t := hR.noResetPc t
-  have g3 := hR.copyTrue
-  have g3t := hR.copyTrue t
-  have g4 := hS.lmxWalk
-  have g4t := hS.lmxWalk t
-  have g5 := hS.lmxBind
-  have g5t := hS.lmxBind t
-  have g6 := hS.createdPar
-  have g7 := hS.parDone
-  have g8 := hS.itemsOk
-  have g8t := hS.itemsOk t
+theorem spec_begin (hS : Struct reg s) (hO : Orig s) (hH : Hint s) (hR : Reach reg s) (hi : s.pc t = .idle) :
+    ∀ t' x n a m, ((begin (C r) reg s t).pc t').afterSpec = some (x, n) → Passed (begin (C r) reg s t).skipSt (begin (C r) reg s t).srcOf (begin (C r) reg s t).pst n a m → Cur (begin (C r) reg s t).wst (begin (C r) reg s t).rst a m → Anc (begin (C r) reg s t).par x a → Vf (begin (C r) reg s t).par (begin (C r) reg s t).can (begin (C r) reg s t).rst (begin (C r) reg s t).oc m a x := by
+  have g0 := hR.spec
+  have g0t := hR.spec t
+  have g1 := hR.copyTrue
+  have g1t := hR.copyTrue t
+  have g2 := hR.snapLe
+  have g2t := hR.snapLe t
+  have g3 := hR.wstLe
+  have l0 := @snap_le_of_afterSpec reg s hR
+  have l1 := @spec_establish reg s hS hR
+  have l2 := @no_anc_afterSpec reg s hS hH
+  have l3 := @locked_afterSpec reg s hS
+  have l4 := @anc_cas_back reg s hS
+  have l5 := @passed_le_s reg s hR
+  have l6 := @cur_le_s reg s hR
+  have l7 := @vf_cas reg s hS
   begin_cases
   all_goals (try rw [hi] at g0t)
-  all_goals (try simp [Pc.pending, Pc.pending_walk, Pc.walkIdx, Pc.copyVal, chain_none_not_anc, chain_some_head, anc_irrefl_s, anc_cas_back, ne_of_registered_created, List.mem_cons, List.mem_of_mem_erase] at g0t)
+  all_goals (try simp [Pc.afterSpec, Pc.copyVal, Pc.snapVal] at g0t)
   all_goals (try rw [hi] at g1t)
-  all_goals (try simp [Pc.pending, Pc.pending_walk, Pc.walkIdx, Pc.copyVal, chain_none_not_anc, chain_some_head, anc_irrefl_s, anc_cas_back, ne_of_registered_created, List.mem_cons, List.mem_of_mem_erase] at g1t)
+  all_goals (try simp [Pc.afterSpec, Pc.copyVal, Pc.snapVal] at g1t)
   all_goals (try rw [hi] at g2t)
-  all_goals (try simp [Pc.pending, Pc.pending_walk, Pc.walkIdx, Pc.copyVal, chain_none_not_anc, chain_some_head, anc_irrefl_s, anc_cas_back, ne_of_registered_created, List.mem_cons, List.mem_of_mem_erase] at g2t)
-  all_goals (try rw [hi] at g3t)
-  all_goals (try simp [Pc.pending, Pc.pending_walk, Pc.walkIdx, Pc.copyVal, chain_none_not_anc, chain_some_head, anc_irrefl_s, anc_cas_back, ne_of_registered_created, List.mem_cons, List.mem_of_mem_erase] at g3t)
+  all_goals (try simp [Pc.afterSpec, Pc.copyVal, Pc.snapVal] at g2t)
+  all_goals (intro t' x n a m h1 h2 h3 h4; by_cases ht : t' = t <;> first | (subst ht; try simp [C, St.eff, upd_apply, afterLists, nextList, Pc.afterSpec, Pc.copyVal, Pc.snapVal] at h1 h2 h3 h4 ⊢) | (try simp [ht, C, St.eff, upd_apply, afterLists, nextList] at h1 h2 h3 h4 ⊢))
+  all_goals grind [Pc.afterSpec, Pc.copyVal, Pc.snapVal , → Pc.afterSpec_owner, → passed_below_bump, → passed_upd_skip_back, → ne_of_locked_created, → cur_upd_wst, → cur_upd_rst, vf_upd_true, vf_upd_true_self, vf_reset, vf_exit]
+
+set_option maxHeartbeats 1600000 in
+theorem fbDone_exec_c (hS : Struct reg s) (hO : Orig s) (hH : Hint s) (hR : Reach reg s) :
+    ∀ t' x p a m, (execCancel (C r) reg s t).pc t' = .bFbU x p → Passed (execCancel (C r) reg s t).skipSt (execCancel (C r) reg s t).srcOf (execCancel (C r) reg s t).pst (execCancel (C r) reg s t).G a m → Cur (execCancel (C r) reg s t).wst (execCancel (C r) reg s t).rst a m → Anc (execCancel (C r) reg s t).par x a → Vf (execCancel (C r) reg s t).par (execCancel (C r) reg s t).can (execCancel (C r) reg s t).rst (execCancel (C r) reg s t).oc m a x := by
+  have g0 := hR.fbDone
+  have g0t := hR.fbDone t
+  have g1 := hR.copyTrue
+  have g1t := hR.copyTrue t
+  have g2 := hR.propMx
+  have g2t := hR.propMx t
+  have g3 := hR.wstLe
+  have g4 := hS.ownsSt
+  have g4t := hS.ownsSt t
+  have l0 := @fb_establish reg s hS hR
+  have l1 := @no_anc_fbU reg s hS hH
+  have l2 := @anc_cas_back reg s hS
+  have l3 := @passed_le_s reg s hR
+  have l4 := @cur_le_s reg s hR
+  have l5 := @vf_cas reg s hS
+  unfold execCancel
+  try unfold walkNext
+  try unfold afterHint
+  try unfold applyReset
+  try simp only [C_propHolds, C_copyNeverClears, afterLists, ↓reduceIte, Bool.true_and]
+  repeat' split
+  all_goals (try rw [‹s.pc t = _›] at g0t)
+  all_goals (try simp [Pc.copyVal, Pc.inProp, Pc.owns] at g0t)
+  all_goals (try rw [‹s.pc t = _›] at g1t)
+  all_goals (try simp [Pc.copyVal, Pc.inProp, Pc.owns] at g1t)
+  all_goals (try rw [‹s.pc t = _›] at g2t)
+  all_goals (try simp [Pc.copyVal, Pc.inProp, Pc.owns] at g2t)
+  all_goals (try rw [‹s.pc t = _›] at g4t)
+  all_goals (try simp [Pc.copyVal, Pc.inProp, Pc.owns] at g4t)
+  all_goals (intro t' x p a m h1 h2 h3 h4; by_cases ht : t' = t <;> first | (subst ht; try simp [C, St.eff, upd_apply, afterLists, nextList, Pc.copyVal, Pc.inProp, Pc.owns] at h1 h2 h3 h4 ⊢) | (try simp [ht, C, St.eff, upd_apply, afterLists, nextList] at h1 h2 h3 h4 ⊢))
+  all_goals grind [Pc.copyVal, Pc.inProp, Pc.owns , → passed_upd_skip_back, passed_bump, → ne_of_locked_created, → cur_upd_wst, → cur_upd_rst, vf_upd_true, vf_upd_true_self, vf_reset, vf_exit]
+
+set_option maxHeartbeats 1600000 in
+theorem fbDone_exec_b (hS : Struct reg s) (hO : Orig s) (hH : Hint s) (hR : Reach reg s) :
+    ∀ t' x p a m, (execBind (C r) s t).pc t' = .bFbU x p → Passed (execBind (C r) s t).skipSt (execBind (C r) s t).srcOf (execBind (C r) s t).pst (execBind (C r) s t).G a m → Cur (execBind (C r) s t).wst (execBind (C r) s t).rst a m → Anc (execBind (C r) s t).par x a → Vf (execBind (C r) s t).par (execBind (C r) s t).can (execBind (C r) s t).rst (execBind (C r) s t).oc m a x := by
+  have g0 := hR.fbDone
+  have g0t := hR.fbDone t
+  have g1 := hR.copyTrue
+  have g1t := hR.copyTrue t
+  have g2 := hR.propMx
+  have g2t := hR.propMx t
+  have g3 := hR.wstLe
+  have g4 := hS.ownsSt
+  have g4t := hS.ownsSt t
+  have l0 := @fb_establish reg s hS hR
+  have l1 := @no_anc_fbU reg s hS hH
+  have l2 := @anc_cas_back reg s hS
+  have l3 := @passed_le_s reg s hR
+  have l4 := @cur_le_s reg s hR
+  have l5 := @vf_cas reg s hS
+  unfold execBind
+  try unfold walkNext
+  try unfold afterHint
+  try unfold applyReset
+  try simp only [C_propHolds, C_copyNeverClears, afterLists, ↓reduceIte, Bool.true_and]
+  repeat' split
+  all_goals (try rw [‹s.pc t = _›] at g0t)
+  all_goals (try simp [Pc.copyVal, Pc.inProp, Pc.owns] at g0t)
+  all_goals (try rw [‹s.pc t = _›] at g1t)
+  all_goals (try simp [Pc.copyVal, Pc.inProp, Pc.owns] at g1t)
+  all_goals (try rw [‹s.pc t = _›] at g2t)
+  all_goals (try simp [Pc.copyVal, Pc.inProp, Pc.owns] at g2t)
+  all_goals (try rw [‹s.pc t = _›] at g4t)
+  all_goals (try simp [Pc.copyVal, Pc.inProp, Pc.owns] at g4t)
+  all_goals (intro t' x p a m h1 h2 h3 h4; by_cases ht : t' = t <;> first | (subst ht; try simp [C, St.eff, upd_apply, afterLists, nextList, Pc.copyVal, Pc.inProp, Pc.owns] at h1 h2 h3 h4 ⊢) | (try simp [ht, C, St.eff, upd_apply, afterLists, nextList] at h1 h2 h3 h4 ⊢))
+  all_goals grind [Pc.copyVal, Pc.inProp, Pc.owns , → passed_upd_skip_back, passed_bump, → ne_of_locked_created, → cur_upd_wst, → cur_upd_rst, vf_upd_true, vf_upd_true_self, vf_reset, vf_exit]
+
+set_option maxHeartbeats 1600000 in
+theorem fbDone_exec_o (hS : Struct reg s) (hO : Orig s) (hH : Hint s) (hR : Reach reg s) :
+    ∀ t' x p a m, (execOther s t).pc t' = .bFbU x p → Passed (execOther s t).skipSt (execOther s t).srcOf (execOther s t).pst (execOther s t).G a m → Cur (execOther s t).wst (execOther s t).rst a m → Anc (execOther s t).par x a → Vf (execOther s t).par (execOther s t).can (execOther s t).rst (execOther s t).oc m a x := by
+  have g0 := hR.fbDone
+  have g0t := hR.fbDone t
+  have g1 := hR.copyTrue
+  have g1t := hR.copyTrue t
+  have g2 := hR.propMx
+  have g2t := hR.propMx t
+  have g3 := hR.wstLe
+  have g4 := hS.ownsSt
+  have g4t := hS.ownsSt t
+  have l0 := @fb_establish reg s hS hR
+  have l1 := @no_anc_fbU reg s hS hH
+  have l2 := @anc_cas_back reg s hS
+  have l3 := @passed_le_s reg s hR
+  have l4 := @cur_le_s reg s hR
+  have l5 := @vf_cas reg s hS
+  unfold execOther
+  try unfold walkNext
+  try unfold afterHint
+  try unfold applyReset
+  try simp only [C_propHolds, C_copyNeverClears, afterLists, ↓reduceIte, Bool.true_and]
+  repeat' split
+  all_goals (try rw [‹s.pc t = _›] at g0t)
+  all_goals (try simp [Pc.copyVal, Pc.inProp, Pc.owns] at g0t)
+  all_goals (try rw [‹s.pc t = _›] at g1t)
+  all_goals (try simp [Pc.copyVal, Pc.inProp, Pc.owns] at g1t)
+  all_goals (try rw [‹s.pc t = _›] at g2t)
+  all_goals (try simp [Pc.copyVal, Pc.inProp, Pc.owns] at g2t)
+  all_goals (try rw [‹s.pc t = _›] at g4t)
+  all_goals (try simp [Pc.copyVal, Pc.inProp, Pc.owns] at g4t)
+  all_goals (intro t' x p a m h1 h2 h3 h4; by_cases ht : t' = t <;> first | (subst ht; try simp [C, St.eff, upd_apply, afterLists, nextList, Pc.copyVal, Pc.inProp, Pc.owns] at h1 h2 h3 h4 ⊢) | (try simp [ht, C, St.eff, upd_apply, afterLists, nextList] at h1 h2 h3 h4 ⊢))
+  all_goals grind [Pc.copyVal, Pc.inProp, Pc.owns , → passed_upd_skip_back, passed_bump, → ne_of_locked_created, → cur_upd_wst, → cur_upd_rst, vf_upd_true, vf_upd_true_self, vf_reset, vf_exit]
+
+theorem fbDone_exec (hS : Struct reg s) (hO : Orig s) (hH : Hint s) (hR : Reach reg s) :
+    ∀ t' x p a m, (exec (C r) reg s t).pc t' = .bFbU x p → Passed (exec (C r) reg s t).skipSt (exec (C r) reg s t).srcOf (exec (C r) reg s t).pst (exec (C r) reg s t).G a m → Cur (exec (C r) reg s t).wst (exec (C r) reg s t).rst a m → Anc (exec (C r) reg s t).par x a → Vf (exec (C r) reg s t).par (exec (C r) reg s t).can (exec (C r) reg s t).rst (exec (C r) reg s t).oc m a x := by
+  unfold exec
+  split
+  · exact fbDone_exec_c hS hO hH hR
+  · split
+    · exact fbDone_exec_b hS hO hH hR
+    · exact fbDone_exec_o hS hO hH hR
+
+set_option maxHeartbeats 1600000 in
+theorem fbDone_begin (hS : Struct reg s) (hO : Orig s) (hH : Hint s) (hR : Reach reg s) (hi : s.pc t = .idle) :
+    ∀ t' x p a m, (begin (C r) reg s t).pc t' = .bFbU x p → Passed (begin (C r) reg s t).skipSt (begin (C r) reg s t).srcOf (begin (C r) reg s t).pst (begin (C r) reg s t).G a m → Cur (begin (C r) reg s t).wst (begin (C r) reg s t).rst a m → Anc (begin (C r) reg s t).par x a → Vf (begin (C r) reg s t).par (begin (C r) reg s t).can (begin (C r) reg s t).rst (begin (C r) reg s t).oc m a x := by
+  have g0 := hR.fbDone
+  have g0t := hR.fbDone t
+  have g1 := hR.copyTrue
+  have g1t := hR.copyTrue t
+  have g2 := hR.propMx
+  have g2t := hR.propMx t
+  have g3 := hR.wstLe
+  have g4 := hS.ownsSt
+  have g4t := hS.ownsSt t
+  have l0 := @fb_establish reg s hS hR
+  have l1 := @no_anc_fbU reg s hS hH
+  have l2 := @anc_cas_back reg s hS
+  have l3 := @passed_le_s reg s hR
+  have l4 := @cur_le_s reg s hR
+  have l5 := @vf_cas reg s hS
+  begin_cases
+  all_goals (try rw [hi] at g0t)
+  all_goals (try simp [Pc.copyVal, Pc.inProp, Pc.owns] at g0t)
+  all_goals (try rw [hi] at g1t)
+  all_goals (try simp [Pc.copyVal, Pc.inProp, Pc.owns] at g1t)
+  all_goals (try rw [hi] at g2t)
+  all_goals (try simp [Pc.copyVal, Pc.inProp, Pc.owns] at g2t)
   all_goals (try rw [hi] at g4t)
-  all_goals (try simp [Pc.pending, Pc.pending_walk, Pc.walkIdx, Pc.copyVal, chain_none_not_anc, chain_some_head, anc_irrefl_s, anc_cas_back, ne_of_registered_created, List.mem_cons, List.mem_of_mem_erase] at g4t)
-  all_goals (try rw [hi] at g5t)
-  all_goals (try simp [Pc.pending, Pc.pending_walk, Pc.walkIdx, Pc.copyVal, chain_none_not_anc, chain_some_head, anc_irrefl_s, anc_cas_back, ne_of_registered_created, List.mem_cons, List.mem_of_mem_erase] at g5t)
-  all_goals (try rw [hi] at g8t)
-  all_goals (try simp [Pc.pending, Pc.pending_walk, Pc.walkIdx, Pc.copyVal, chain_none_not_anc, chain_some_head, anc_irrefl_s, anc_cas_back, ne_of_registered_created, List.mem_cons, List.mem_of_mem_erase] at g8t)
-  all_goals (intro t' a i pend L z h1 h2 h3; by_cases ht : t' = t <;> first | (subst ht; try simp [C, upd_apply, afterLists, nextList, Pc.pending, Pc.pending_walk, Pc.walkIdx, Pc.copyVal, chain_none_not_anc, chain_some_head, anc_irrefl_s, anc_cas_back, ne_of_registered_created, List.mem_cons, List.mem_of_mem_erase] at h1 h2 h3 ⊢) | (try simp [ht, C, upd_apply, afterLists, nextList] at h1 h2 h3 ⊢))
-  all_goals grind [Pc.pending, Pc.pending_walk, Pc.walkIdx, Pc.copyVal, chain_none_not_anc, chain_some_head, anc_irrefl_s, anc_cas_back, ne_of_registered_created, List.mem_cons, List.mem_of_mem_erase]
+  all_goals (try simp [Pc.copyVal, Pc.inProp, Pc.owns] at g4t)
+  all_goals (intro t' x p a m h1 h2 h3 h4; by_cases ht : t' = t <;> first | (subst ht; try simp [C, St.eff, upd_apply, afterLists, nextList, Pc.copyVal, Pc.inProp, Pc.owns] at h1 h2 h3 h4 ⊢) | (try simp [ht, C, St.eff, upd_apply, afterLists, nextList] at h1 h2 h3 h4 ⊢))
+  all_goals grind [Pc.copyVal, Pc.inProp, Pc.owns , → passed_upd_skip_back, passed_bump, → ne_of_locked_created, → cur_upd_wst, → cur_upd_rst, vf_upd_true, vf_upd_true_self, vf_reset, vf_exit]
 
 end TbbVerif.C04
